@@ -144,28 +144,182 @@ theorem refs_same_namespace_or_granted {granted : Grants} {g : GwConfig} {id : I
     | inr hc => cases hc
   | inr h => exact Or.inr h
 
+/-- Type, namespace and name of a parsed resource do not depend on the cluster arguments. -/
+theorem parse_clusters_irrelevant (rn vns pc cc pc' cc' : Str) {sr : SR}
+    (h : parseResourceName rn vns pc cc = some sr) :
+    ∃ sr', parseResourceName rn vns pc' cc' = some sr' ∧ sr'.rtype = sr.rtype ∧ sr'.ns = sr.ns ∧ sr'.name = sr.name := by
+  have nsName : ∀ (t : RType) (res cl cl' : Str), parseNsName t rn res cl = some sr →
+      ∃ sr', parseNsName t rn res cl' = some sr' ∧ sr'.rtype = sr.rtype ∧ sr'.ns = sr.ns ∧ sr'.name = sr.name := by
+    intro t res cl cl' hp
+    unfold parseNsName at hp ⊢
+    split at hp
+    · split at hp
+      · cases hp
+      · split at hp
+        · cases hp
+        · cases hp
+          rename_i ha hb
+          simp [ha, hb]
+    · cases hp
+  unfold parseResourceName at h ⊢
+  cases hk : cutPrefix rn kubernetesURI with
+  | some res =>
+    rw [hk] at h
+    simp only at h ⊢
+    split at h <;> (cases h; simp)
+  | none =>
+    rw [hk] at h
+    simp only at h ⊢
+    cases hc : cutPrefix rn configmapURI with
+    | some res => rw [hc] at h; simp only at h ⊢; exact nsName _ _ _ _ h
+    | none =>
+      rw [hc] at h
+      simp only at h ⊢
+      cases hg : cutPrefix rn gatewayURI with
+      | some res => rw [hg] at h; simp only at h ⊢; exact nsName _ _ _ _ h
+      | none =>
+        rw [hg] at h
+        simp only at h ⊢
+        split at h
+        · rename_i hi; cases h; simp [hi]
+        · cases h
+
+/-- **cacert_companion_same_secret.** The `-cacert` companion name `base ++ "-cacert"` that `mergeGateways`
+    inserts for (OPTIONAL_)MUTUAL servers can release a *key pair* only when the suffix sits in a later path
+    segment - and then it denotes exactly the secret `(namespace, name)` that `base` denotes. (When the suffix
+    ends the parsed name the resource is CA-only and carries no key.) -/
+theorem cacert_companion_same_secret {base vns pc cc : Str} {sr : SR}
+    (h : parseResourceName (base ++ cacertSuffix) vns pc cc = some sr) (ht : sr.rtype = .gateway)
+    (hns : hasSuffix sr.name cacertSuffix = false) :
+    ∃ sr', parseResourceName base vns pc cc = some sr' ∧ sr'.rtype = .gateway ∧ sr'.ns = sr.ns ∧
+      sr'.name = sr.name := by
+  obtain ⟨_, _, hk | hc | hg | hi⟩ := parse_some h
+  · rw [hk.1] at ht; cases ht
+  · rw [hc.1] at ht; cases ht
+  · obtain ⟨_, _, hnse, hnme, res, more, hrn, hsp⟩ := hg
+    have hsep : '/' ∈ res := sep_mem_of_split_two hsp
+    have hsuf : '/' ∉ cacertSuffix := by decide
+    obtain ⟨res', hres, hbase⟩ := suffix_inside '/' hsuf hsep hrn.symm
+    rw [hres, split_append_nosep '/' res' cacertSuffix hsuf] at hsp
+    have key : ∃ z r, split '/' res' = sr.ns :: sr.name :: z :: r := by
+      cases hs : split '/' res' with
+      | nil => exact absurd hs (split_ne_nil _ _)
+      | cons x t =>
+        rw [hs] at hsp
+        cases t with
+        | nil => simp [appendLast] at hsp
+        | cons y t2 =>
+          cases t2 with
+          | nil =>
+            simp only [appendLast, List.cons.injEq] at hsp
+            have : hasSuffix sr.name cacertSuffix = true := hasSuffix_iff.mpr ⟨y, hsp.2.1.symm⟩
+            rw [hns] at this; cases this
+          | cons z r =>
+            simp only [appendLast, List.cons.injEq] at hsp
+            exact ⟨z, r, by rw [hsp.1, hsp.2.1]⟩
+    obtain ⟨z, r, hsplit⟩ := key
+    refine ⟨⟨.gateway, sr.name, sr.ns, base, cc⟩, ?_, rfl, rfl, rfl⟩
+    unfold parseResourceName
+    rw [hbase, cutPrefix_gateway_kubernetes]
+    simp only
+    rw [cutPrefix_gateway_configmap]
+    simp only
+    rw [cutPrefix_append]
+    simp only [parseNsName, hsplit]
+    simp [hnse, hnme]
+  · rw [hi.1] at ht; cases ht
+
+/-- **grantEval_sound.** The real ReferenceGrant evaluation allows a reference only if a grant object lives in the
+    namespace the resource name itself names (parsed with an empty proxy namespace, so never an implicit one), is
+    for Secrets (ConfigMaps for `configmap://`), names the requesting kind and namespace, and allows the name. -/
+theorem grantEval_sound {grants : List RefGrant} {ls : Bool} {rn ns : Str}
+    (h : grantEval grants ls rn ns = true) :
+    ∃ p g, parseResourceName rn [] [] [] = some p ∧ g ∈ grants ∧ g.srcNs = p.ns ∧ g.fromNs = ns ∧
+      g.fromLS = some ls ∧ (g.name = none ∨ g.name = some p.name) ∧ g.toKind = p.rtype.ck ∧ g.toKind ≠ .other := by
+  unfold grantEval at h
+  cases hp : parseResourceName rn [] [] [] with
+  | none => rw [hp] at h; cases h
+  | some p =>
+    rw [hp] at h
+    simp only [List.any_eq_true] at h
+    obtain ⟨g, hg, hc⟩ := h
+    simp only [Bool.and_eq_true, Bool.or_eq_true, decide_eq_true_eq] at hc
+    obtain ⟨⟨⟨⟨h1, h2⟩, h3⟩, h4⟩, h5⟩ := hc
+    refine ⟨p, g, rfl, hg, h3, h2, h1, ?_, ?_, ?_⟩
+    · cases hn : g.name with
+      | none => exact Or.inl rfl
+      | some n =>
+        rw [hn] at h5
+        simp only [decide_eq_true_eq] at h5
+        exact Or.inr (by rw [h5])
+    · cases h4 with
+      | inl h4 => rw [h4.1, h4.2]
+      | inr h4 => rw [h4.1, h4.2]
+    · cases h4 with
+      | inl h4 => rw [h4.1]; decide
+      | inr h4 => rw [h4.1]; decide
+
 /-- **gateway_release_bound.** End of the chain for the grant clause: when the proxy's verified set is the one
-    `mergeGateways` computes from its verified identity, a `kubernetes-gateway://` key pair is released only under a
-    name justified as in `refs_sound`. -/
+    `mergeGateways` computes from its verified identity, a `kubernetes-gateway://` key pair released under `name` is
+    the key pair of the secret `(sr.name, sr.ns)` the name parses to, stored in the config cluster or the proxy's
+    cluster, and that very `(namespace, name)` is what a justified base reference denotes: `name` itself, or `name`
+    without the `-cacert` companion suffix (`cacert_companion_same_secret`). -/
 theorem gateway_release_bound (w : World) (hw : WorldOK w) (granted : Grants) (gws : List GwConfig)
     (vid : Option Identity) (cluster : Str) (hp : ProxyOK ⟨vid, cluster, some (verifiedRefs granted vid gws)⟩)
     (c : Cache) (hc : Consistent w c) (names : List Str) (req : Option PushReq) (o : GenOut)
     (h : generate w c ⟨vid, cluster, some (verifiedRefs granted vid gws)⟩ names req = some o)
     (name : Str) (v : Val) (hm : (name, v) ∈ o.res) (hk : v.hasKey = true) :
-    (∃ id sr, vid = some id ∧ parseResourceName name id.ns cluster w.configCluster = some sr ∧
-        sr.rtype = .kubernetes ∧ sr.ns = id.ns) ∨
-    (∃ id g, vid = some id ∧ g ∈ gws ∧ id.ns = g.expectedNs ∧ (id.sa = g.saAnn ∨ g.saAnn = []) ∧
-        ∃ base, (name = base ∨ name = base ++ cacertSuffix) ∧ RefJustified granted g id base) := by
-  obtain ⟨id, sr, pc, hv, _, hparse, _, hcase, _⟩ :=
+    ∃ id sr, vid = some id ∧ parseResourceName name id.ns cluster w.configCluster = some sr ∧
+      (∃ cl ∈ w.clusters, (cl.id = cluster ∨ cl.id = w.configCluster) ∧
+        ∃ d, cl.secrets sr.name sr.ns = some d ∧ extractCertInfo d = some v) ∧
+      ((sr.rtype = .kubernetes ∧ sr.ns = id.ns) ∨
+       (sr.rtype = .gateway ∧ ∃ g, g ∈ gws ∧ id.ns = g.expectedNs ∧ (id.sa = g.saAnn ∨ g.saAnn = []) ∧
+          ∃ base sr0, (name = base ∨ name = base ++ cacertSuffix) ∧
+            parseResourceName base id.ns [] [] = some sr0 ∧ sr0.ns = sr.ns ∧ sr0.name = sr.name ∧
+            RefJustified granted g id base)) := by
+  obtain ⟨id, sr, pc, hv, _, hparse, _, hcase, hnca, hstore⟩ :=
     sds_release_sound w hw _ hp c hc names req o h name v hm hk
+  refine ⟨id, sr, hv, hparse, hstore, ?_⟩
   cases hcase with
-  | inl hkube => exact Or.inl ⟨id, sr, hv, hparse, hkube.1, hkube.2.1⟩
+  | inl hkube => exact Or.inl ⟨hkube.1, hkube.2.1⟩
   | inr hgw =>
+    right
+    refine ⟨hgw.1, ?_⟩
     obtain ⟨l, hl, hmem⟩ := hgw.2
     simp only [Option.some.injEq] at hl
     subst hl
-    obtain ⟨id', g, hv', hg, hns, hsa, hb⟩ := refs_sound granted vid gws name hmem
-    exact Or.inr ⟨id', g, hv', hg, hns, hsa, hb⟩
+    obtain ⟨id', g, hv', hg, hns, hsa, base, hb, hj⟩ := refs_sound granted vid gws name hmem
+    have hid : id' = id := by
+      have hv2 : vid = some id := hv
+      rw [hv2] at hv'
+      exact (Option.some.inj hv').symm
+    subst hid
+    refine ⟨g, hg, hns, hsa, base, ?_⟩
+    cases hb with
+    | inl hb =>
+      subst hb
+      obtain ⟨sr0, hp0, _, h2, h3⟩ := parse_clusters_irrelevant name id'.ns cluster w.configCluster [] [] hparse
+      exact ⟨sr0, Or.inl rfl, hp0, h2, h3, hj⟩
+    | inr hb =>
+      subst hb
+      obtain ⟨sr1, hp1, _, h2, h3⟩ := cacert_companion_same_secret hparse hgw.1 hnca
+      obtain ⟨sr0, hp0, _, h4, h5⟩ := parse_clusters_irrelevant base id'.ns cluster w.configCluster [] [] hp1
+      exact ⟨sr0, Or.inr rfl, hp0, by rw [h4, h2], by rw [h5, h3], hj⟩
+
+/-- **gateway_key_own_namespace_or_granted.** For an ordinary Gateway (not a ListenerSet child) the secret whose key
+    pair is released under a verified `kubernetes-gateway://` name lives in the verified identity's own namespace
+    (and so does the Gateway config), or the base reference is granted to the verified namespace. -/
+theorem gateway_key_own_namespace_or_granted {granted : Grants} {g : GwConfig} {id : Identity} {base : Str}
+    {sr0 sr : SR} (hls : g.listenerSet = false) (hp0 : parseResourceName base id.ns [] [] = some sr0)
+    (hns : sr0.ns = sr.ns) (hj : RefJustified granted g id base) :
+    (sr.ns = id.ns ∧ g.ns = id.ns) ∨ granted false base id.ns = true := by
+  cases refs_same_namespace_or_granted hls hj with
+  | inl h =>
+    obtain ⟨sr1, hp1, hg, hn⟩ := h
+    rw [hp0] at hp1
+    cases hp1
+    exact Or.inl ⟨by rw [← hns, hn], hg⟩
+  | inr h => exact Or.inr h
 
 /-! Non-vacuity. -/
 
